@@ -99,6 +99,31 @@ def BlockInCur (cfg : Cfg) (s : State) (ptr size : Nat) : Prop :=
 def BlockInChunk (cfg : Cfg) (s : State) (ptr size : Nat) : Prop :=
   ∃ (i : Nat) (c : Chunk), s.chunks[i]? = some c ∧ c.contentStart cfg ≤ ptr ∧ ptr + size ≤ c.contentEnd cfg
 
+/-- the granted blocks of different chunks do not overlap -/
+def ChunksDisjoint (s : State) : Prop :=
+  ∀ (i j : Nat) (a b : Chunk), i ≠ j → s.chunks[i]? = some a → s.chunks[j]? = some b →
+    a.base + a.size ≤ b.base ∨ b.base + b.size ≤ a.base
+
+/-- the blocks the base allocator is about to hand out overlap neither an existing chunk nor each other -/
+def RespsFresh (s : State) : Prop :=
+  s.resps.Pairwise (fun r1 r2 => match r1, r2 with
+    | .granted p1 g1, .granted p2 g2 => p1 + g1 ≤ p2 ∨ p2 + g2 ≤ p1
+    | _, _ => True) ∧
+  ∀ (p g : Nat), BaseResp.granted p g ∈ s.resps → ∀ (i : Nat) (c : Chunk), s.chunks[i]? = some c →
+    p + g ≤ c.base ∨ c.base + c.size ≤ p
+
+/-- where a live block can be: in the content range of the current chunk on the allocated side of the
+    position, or in the content range of an earlier chunk (used only to STATE the open no-fault targets) -/
+def LiveBlock (cfg : Cfg) (s : State) (ptr size : Nat) : Prop :=
+  ∃ (i j : Nat) (c : Chunk), s.cur = .chunk i ∧ j ≤ i ∧ s.chunks[j]? = some c ∧
+    c.contentStart cfg ≤ ptr ∧ ptr + size ≤ c.contentEnd cfg ∧
+    (j = i → if cfg.up then ptr + size ≤ c.pos else c.pos ≤ ptr)
+
+/-- `[a, b]` lies in the content range of the current chunk (a prepared range) -/
+def RangeInCur (cfg : Cfg) (s : State) (a b : Nat) : Prop :=
+  ∃ (i : Nat) (c : Chunk), s.cur = .chunk i ∧ s.chunks[i]? = some c ∧
+    c.contentStart cfg ≤ a ∧ a ≤ b ∧ b ≤ c.contentEnd cfg
+
 /-- a checkpoint taken in this arena: it names a chunk and an address in its content range,
     or it is the checkpoint of an unallocated arena (only possible without GUARANTEED_ALLOCATED) -/
 def CheckpointOK (cfg : Cfg) (s : State) (cp : Checkpoint) : Prop :=
